@@ -432,3 +432,126 @@ Definition observer_reads : list (string * list string) :=
 '''
     write_if_changed(os.path.join(GEN, "SaveFields_gen.v"), text)
     return "gen/SaveFields_gen.v"
+
+
+# ---- edge weight and attribution rules of the critical-path graph -> coq/gen/CpRules_gen.v ----
+def gen_cprules() -> str:
+    """Reads CPEdgeType (member order = type codes), CPGraph._add_edge_helper (the weight expression) and CPGraph._attribute_edge (the
+    attributed types and the if / elif chain choosing the event) and emits them as Gallina.  Supported shapes only:
+        weight = (0 if (type in [CPEdgeType.A, ...] or zero_weight) else (dest.ts - src.ts))
+        if e.type not in {CPEdgeType.A, ...}: return
+        ev_idx = 0
+        if <test>: ev_idx = <choice>  elif ... else: ev_idx = <choice>
+      tests: e.type == CPEdgeType.X | src.is_start | dest.is_start | not <test>;  choices: src.ev_idx | dest.ev_idx | src_parent"""
+    path = "hta/analyzers/critical_path_analysis.py"
+    tree = ast.parse(open(os.path.join(fw.REPO, path)).read())
+    classes = {n.name: n for n in tree.body if isinstance(n, ast.ClassDef)}
+    if "CPEdgeType" not in classes or "CPGraph" not in classes:
+        raise Stop("critical_path_analysis.py: CPEdgeType / CPGraph not found")
+    members = [st.targets[0].id for st in classes["CPEdgeType"].body if isinstance(st, ast.Assign) and isinstance(st.targets[0], ast.Name)]
+    expected = ["OPERATOR_KERNEL", "DEPENDENCY", "KERNEL_LAUNCH_DELAY", "KERNEL_KERNEL_DELAY", "SYNC_DEPENDENCY"]
+    if members != expected:
+        raise Stop(f"CPEdgeType members {members} (the models number the types in the order {expected})")
+    code = {m: i for i, m in enumerate(members)}
+    methods = {n.name: n for n in classes["CPGraph"].body if isinstance(n, ast.FunctionDef)}
+
+    def ty_of(e) -> int:
+        if isinstance(e, ast.Attribute) and isinstance(e.value, ast.Name) and e.value.id == "CPEdgeType" and e.attr in code:
+            return code[e.attr]
+        raise Stop(f"edge type expression {ast.unparse(e)}")
+
+    # -- _add_edge_helper: weight
+    helper = methods.get("_add_edge_helper")
+    if helper is None:
+        raise Stop("CPGraph._add_edge_helper not found")
+    hargs = [a.arg for a in helper.args.args]
+    if hargs != ["self", "src", "dest", "type", "zero_weight"]:
+        raise Stop(f"_add_edge_helper arguments {hargs}")
+    wexpr = None
+    for st in helper.body:
+        if isinstance(st, ast.Assign) and isinstance(st.targets[0], ast.Name) and st.targets[0].id == "weight":
+            wexpr = st.value
+    if not isinstance(wexpr, ast.IfExp):
+        raise Stop("_add_edge_helper: weight is not a conditional expression")
+    if not (isinstance(wexpr.body, ast.Constant) and wexpr.body.value == 0):
+        raise Stop("_add_edge_helper: the zero branch is not the constant 0")
+    if ast.unparse(wexpr.orelse).replace(" ", "") not in ("dest.ts-src.ts", "(dest.ts-src.ts)"):
+        raise Stop(f"_add_edge_helper: time-difference branch is {ast.unparse(wexpr.orelse)}")
+    t = wexpr.test
+    if not (isinstance(t, ast.BoolOp) and isinstance(t.op, ast.Or) and len(t.values) == 2):
+        raise Stop("_add_edge_helper: zero-weight condition is not `type in [...] or zero_weight`")
+    a, b_ = t.values
+    if not (isinstance(b_, ast.Name) and b_.id == "zero_weight" and isinstance(a, ast.Compare) and len(a.ops) == 1 and isinstance(a.ops[0], ast.In)
+            and isinstance(a.left, ast.Name) and a.left.id == "type" and isinstance(a.comparators[0], (ast.List, ast.Set, ast.Tuple))):
+        raise Stop("_add_edge_helper: zero-weight condition is not `type in [...] or zero_weight`")
+    zero_types = [ty_of(x) for x in a.comparators[0].elts]
+
+    # -- _attribute_edge
+    attr = methods.get("_attribute_edge")
+    if attr is None or [x.arg for x in attr.args.args] != ["self", "e", "src_parent"]:
+        raise Stop("CPGraph._attribute_edge(self, e, src_parent) not found")
+    body = [st for st in attr.body if not (isinstance(st, ast.Expr) and isinstance(st.value, ast.Constant))]
+    guard = body[0]
+    if not (isinstance(guard, ast.If) and isinstance(guard.test, ast.Compare) and isinstance(guard.test.ops[0], ast.NotIn)
+            and ast.unparse(guard.test.left) == "e.type" and isinstance(guard.test.comparators[0], (ast.Set, ast.List, ast.Tuple))
+            and len(guard.body) == 1 and isinstance(guard.body[0], ast.Return) and guard.body[0].value is None and not guard.orelse):
+        raise Stop("_attribute_edge: first statement is not `if e.type not in {...}: return`")
+    attributed = sorted(ty_of(x) for x in guard.test.comparators[0].elts)
+    chain = [st for st in body[1:] if isinstance(st, ast.If) and "logger" not in ast.unparse(st.test)]
+    if len(chain) != 1:
+        raise Stop("_attribute_edge: expected exactly one if / elif chain after the guard")
+    binds = [st for st in body[1:] if isinstance(st, ast.Assign)]
+    if [ast.unparse(b) for b in binds[:1]] != ["src, dest = (self.node_list[e.begin], self.node_list[e.end])"] and \
+            [ast.unparse(b) for b in binds[:1]] != ["(src, dest) = (self.node_list[e.begin], self.node_list[e.end])"]:
+        raise Stop(f"_attribute_edge: src / dest are not the edge's end nodes: {[ast.unparse(b) for b in binds[:1]]}")
+    stores = [st for st in body[1:] if isinstance(st, ast.Assign) and ast.unparse(st.targets[0]).startswith("self.edge_to_event_map")]
+    if len(stores) != 1 or ast.unparse(stores[0].targets[0]) != "self.edge_to_event_map[src.idx, dest.idx]" or ast.unparse(stores[0].value) != "int(ev_idx)":
+        raise Stop("_attribute_edge: the result is not stored as edge_to_event_map[(src.idx, dest.idx)] = int(ev_idx)")
+
+    def test(e) -> str:
+        if isinstance(e, ast.UnaryOp) and isinstance(e.op, ast.Not):
+            return f"negb ({test(e.operand)})"
+        u = ast.unparse(e)
+        if u == "src.is_start":
+            return "src_start"
+        if u == "dest.is_start":
+            return "dst_start"
+        if isinstance(e, ast.Compare) and len(e.ops) == 1 and isinstance(e.ops[0], ast.Eq) and ast.unparse(e.left) == "e.type":
+            return f"(ty =? {ty_of(e.comparators[0])})"
+        raise Stop(f"_attribute_edge: test {u}")
+
+    def choice(stmts) -> str:
+        if len(stmts) != 1 or not isinstance(stmts[0], ast.Assign) or ast.unparse(stmts[0].targets[0]) != "ev_idx":
+            raise Stop("_attribute_edge: a branch is not a single assignment to ev_idx")
+        u = ast.unparse(stmts[0].value)
+        tbl = {"src.ev_idx": "src_ev", "dest.ev_idx": "dst_ev", "src_parent": "src_parent"}
+        if u not in tbl:
+            raise Stop(f"_attribute_edge: choice {u}")
+        return tbl[u]
+
+    def chain_text(node: ast.If) -> str:
+        els = node.orelse
+        if len(els) == 1 and isinstance(els[0], ast.If):
+            rest = chain_text(els[0])
+        else:
+            rest = choice(els)
+        return f"if {test(node.test)} then {choice(node.body)}\n  else {rest}"
+
+    text = f'''(* GENERATED by harness/translate.py from hta/analyzers/critical_path_analysis.py (CPEdgeType, CPGraph._add_edge_helper,
+   CPGraph._attribute_edge) -- do not edit.  Edge types are numbered in the order of the members of CPEdgeType:
+   {", ".join(f"{i} {m}" for m, i in code.items())}. *)
+From HTA.lib Require Import Base.
+Open Scope Z_scope.
+
+(* weight = 0 if (type in zero_weight_types or zero_weight) else dest.ts - src.ts *)
+Definition zero_weight_types_gen : list Z := {fw.zl(zero_types)}.
+Definition edge_weight_gen (ty : Z) (zero_weight : bool) (src_ts dst_ts : Z) : Z :=
+  if existsb (Z.eqb ty) zero_weight_types_gen || zero_weight then 0 else dst_ts - src_ts.
+
+(* only these edge types are attributed to an event *)
+Definition attributed_types_gen : list Z := {fw.zl(attributed)}.
+Definition attr_rule_gen (ty : Z) (src_start dst_start : bool) (src_ev dst_ev src_parent : Z) : Z :=
+  {chain_text(chain[0])}.
+'''
+    write_if_changed(os.path.join(GEN, "CpRules_gen.v"), text)
+    return "gen/CpRules_gen.v"
